@@ -229,6 +229,14 @@ turns a nil module into an error, so the only way on is with a module. -/
 def startup (st : StoreState) : Option Bool :=
   if storeOpens st then some false else none
 
+/-- `InitAuth` stores the configured users as they are (auth.go:89,
+`users: users`): no entry is dropped, whatever its name or password hash looks
+like. -/
+def initAuthUsers {α : Type} (configured : List α) : List α := configured
+
+/-- `Auth.authRequired` after start-up (gl-inet mode off): `len(a.users) != 0`. -/
+def usersExistAfter {α : Type} (configured : List α) : Bool := !(initAuthUsers configured).isEmpty
+
 /-- Facts about the start-up code, extracted from the tree (rows of
 `Gen.authFacts`). -/
 inductive AuthFactKind
@@ -237,6 +245,7 @@ inductive AuthFactKind
   | returnNilWithError   -- `return nil, <an error that cannot be nil>` in initUsers
   | returnCheckedValue   -- `return auth, …` after `if auth == nil { return … }`
   | findUserVerdictOnly  -- `_, ok = findUser(…)` on the gate path, `ok` assigned nowhere else
+  | usersStoredAsGiven   -- InitAuth: `users: users` in the Auth literal, the field written nowhere else
   | bad                  -- anything else: the module may be nil while requests are served
   deriving DecidableEq, Repr
 
